@@ -221,6 +221,12 @@ def run(replay=None):
         'EVERY coordinate through a fresh view and compared with the run of the Coq ownership model (concrete level, which the theorem C12_history_refines proves equal to plain value semantics); the process runs under '
         'ASan + LeakSanitizer + UBSan in an assertion build and in -O2 -DNDEBUG, so a double free, use after free, leak or value-returning function that returns nothing is a failure. '
         'A case = (field type, history); non-trivial = contains at least one copy/move/assign; distinct by those.')
+    with core.Lock('coq'):
+        rep, tlog = core.translate()
+    for u in rep['untranslatable']:
+        if u['group'] == 'Own':
+            chk.obligation_broken('reading of ' + u['name'], u['why'])
+    chk.cov['special_members_in_source'] = {k: v for k, v in rep.get('own', {}).items() if k != 'problems'} if isinstance(rep.get('own'), dict) else None
     chk.prove('Properties_C12.v')
     r = chk.rng
     with core.Lock('ocaml'):
